@@ -251,10 +251,34 @@ pub fn make_key(k: &KeySpec) -> Result<rcgen::KeyPair, String> {
 	}
 	#[cfg(feature = "crypto")]
 	{
+		// The explicit-algorithm loading entry point is chosen by the part of `idx` above the pool
+		// size, so that every property sees keys that came in through every loader (they build
+		// the signing key from separate per-algorithm tables).
+		use pki_types::{PrivateKeyDer, PrivatePkcs1KeyDer, PrivatePkcs8KeyDer, PrivateSec1KeyDer};
 		let fx = fixture(k);
-		let der = pki_types::PrivatePkcs8KeyDer::from(fx.pk8.as_slice());
-		return rcgen::KeyPair::from_pkcs8_der_and_sign_algo(&der, rcgen_alg(k))
-			.map_err(|e| format!("fixture key {:?}#{} rejected by rcgen: {e}", k.alg, k.idx));
+		let pool = fixtures().pools[&k.alg].len();
+		let alg = rcgen_alg(k);
+		let sel = (k.idx as usize / pool) % 5;
+		let pk8 = PrivatePkcs8KeyDer::from(fx.pk8.as_slice());
+		let r = match sel {
+			0 => rcgen::KeyPair::from_pkcs8_der_and_sign_algo(&pk8, alg),
+			1 => rcgen::KeyPair::from_der_and_sign_algo(&PrivateKeyDer::Pkcs8(pk8), alg),
+			2 => rcgen::KeyPair::from_pkcs8_pem_and_sign_algo(&crate::pemstrict::encode("PRIVATE KEY", &fx.pk8), alg),
+			3 => rcgen::KeyPair::from_pem_and_sign_algo(&crate::pemstrict::encode("PRIVATE KEY", &fx.pk8), alg),
+			_ => match (&fx.legacy, cfg!(feature = "aws_be")) {
+				// SEC1 / PKCS#1 documents are only documented to load under aws-lc-rs
+				(Some(l), true) => {
+					let typed = if k.is_rsa() {
+						PrivateKeyDer::Pkcs1(PrivatePkcs1KeyDer::from(l.as_slice()))
+					} else {
+						PrivateKeyDer::Sec1(PrivateSec1KeyDer::from(l.as_slice()))
+					};
+					rcgen::KeyPair::from_der_and_sign_algo(&typed, alg)
+				},
+				_ => rcgen::KeyPair::from_pkcs8_der_and_sign_algo(&pk8, alg),
+			},
+		};
+		return r.map_err(|e| format!("fixture key {:?}#{} rejected by rcgen (loader {sel}): {e}", k.alg, k.idx));
 	}
 	#[allow(unreachable_code)]
 	Err("unreachable".into())
